@@ -500,7 +500,7 @@ class EditStreamDefaults(HTMLHandlerBase):
         if current_stream.defaults is None:
             options = defaults
         else:
-            options = defaults.clone(**current_stream.defaults)
+            options = defaults.clone(**self.stored_stream_defaults(current_stream))
         field_choices = {
             'representation': [
                 dict(value=mf.name, title=mf.name) for mf in current_stream.media_files],
@@ -547,7 +547,12 @@ class EditStreamDefaults(HTMLHandlerBase):
         form['drm'] = ','.join(drms)
         form['events'] = ','.join(flask.request.form.getlist('events'))
         opts = OptionsRepository.convert_cgi_options(form, defaults=defaults)
-        current_stream.defaults = flatten(opts.remove_default_values(defaults))
+        changes = opts.remove_default_values(defaults)
+        if 'drmSelection' in changes:
+            # the DRM selection (tuples of a name and a set of locations) can
+            # not be stored as JSON. It is stored in its string form
+            changes['drmSelection'] = DrmSelection.to_string(changes['drmSelection'])
+        current_stream.defaults = flatten(changes)
         models.db.session.commit()
         flask.flash('Saved stream defaults', 'success')
         return flask.redirect(flask.url_for('view-stream', spk=current_stream.pk))
